@@ -246,7 +246,27 @@ Section KeyCursor.
 
     Definition run_cursor (fs : list tfile) (t : Z) (asc : bool) : option (list arr) :=
       run_loop (run_fuel fs) asc (new_cursor fs t asc).
+
+    (** the same cursor on a GIVEN order [s] of the locations (what [sort.Sort] left in [c.seeks]);
+        [run_cursor] is [run_cursor_on] with [s := sort_locs asc (locations fs t asc)] *)
+    Definition cursor_of (s : list loc) (t : Z) (asc : bool) : cursor :=
+      let cur := if asc then seek_asc s t else seek_desc s t in
+      {| k_seeks := s; k_cur := cur; k_pos := Z.of_nat (hd 0%nat cur) |}.
+    Definition run_cursor_on (fs : list tfile) (s : list loc) (t : Z) (asc : bool) : option (list arr) :=
+      run_loop (run_fuel fs) asc (cursor_of s t asc).
   End Read.
+
+  (** a location is identified by (file, entry min time): blocks of one file have distinct min times *)
+  Definition loc_key (l : loc) : nat * Z := (l_file l, l_min l).
+  Definition key_eqb (a b : nat * Z) : bool := Nat.eqb (fst a) (fst b) && (snd a =? snd b).
+  (** [reorder locs ord]: the locations in the order given by the keys [ord], provided [ord] names
+      every location exactly once *)
+  Definition reorder (locs : list loc) (ord : list (nat * Z)) : option (list loc) :=
+    let picked := flat_map (fun k => match find (fun l => key_eqb (loc_key l) k) locs with
+                                     | Some l => [l] | None => [] end) ord in
+    if Nat.eqb (length picked) (length locs) && Nat.eqb (length ord) (length locs)
+       && forallb (fun l => existsb (key_eqb (loc_key l)) ord) locs
+    then Some picked else None.
 
   (** ** Specification side (independent of the mirror). *)
 
@@ -313,7 +333,10 @@ Record wfile := {
   w_entries : list (Z * Z); w_tombs : list (Z * Z); w_tmin : Z; w_tmax : Z }.
 
 (** one cursor run: seek time, direction, the blocks returned by the scalar and array forms *)
-Record query := { q_t : Z; q_asc : bool; q_scalar : list (arr Z); q_array : list (arr Z) }.
+(** [q_order]: the order of [c.seeks] after [sort.Sort] as the real cursor reports it (keys = file
+    index, entry min time; read through the verif-only accessor [KeyCursor.VerifSeeks]). *)
+Record query := { q_t : Z; q_asc : bool; q_order : list (nat * Z);
+                  q_scalar : list (arr Z); q_array : list (arr Z) }.
 
 Record case := { c_files : list wfile; c_qs : list query }.
 
@@ -354,9 +377,24 @@ Fixpoint all_some {A} (l : list (option A)) : option (list A) :=
 
 Definition blocks_eqb (a b : list (arr Z)) : bool := list_eqb arr_eqb a b.
 
+(** Up to 12 locations Go's [sort.Sort] is the insertion sort of the model: the reported order must
+    BE the model's.  Beyond 12 it is pdqsort, which the model does not mirror (and whose result under
+    the non-transitive comparator is not determined by the comparator): there the mirror runs on the
+    REPORTED order, which must be a permutation of the model's locations. *)
+Definition q_seeks (fs : list (tfile Z)) (q : query) : option (list (loc Z)) :=
+  let locs := locations fs (q_t q) (q_asc q) in
+  if (length locs <=? 12)%nat then
+    let s := sort_locs (q_asc q) locs in
+    if list_eqb key_eqb (map loc_key s) (q_order q) then Some s else None
+  else reorder locs (q_order q).
+
 Definition q_same (fs : list (tfile Z)) (q : query) : bool :=
-  option_eqb blocks_eqb (Some (q_scalar q)) (run_cursor vals_merge fs (q_t q) (q_asc q))
-  && option_eqb blocks_eqb (Some (q_array q)) (run_cursor arr_merge fs (q_t q) (q_asc q)).
+  match q_seeks fs q with
+  | None => false
+  | Some s =>
+      option_eqb blocks_eqb (Some (q_scalar q)) (run_cursor_on vals_merge fs s (q_t q) (q_asc q))
+      && option_eqb blocks_eqb (Some (q_array q)) (run_cursor_on arr_merge fs s (q_t q) (q_asc q))
+  end.
 
 Definition q_ok (fs : list (tfile Z)) (q : query) : bool :=
   let want := live_points_newest_wins fs (q_t q) (q_asc q) in
